@@ -9,11 +9,13 @@
  S5 EXACT-PAYLOADLESS a payload-free tag of a variant that otherwise carries a payload is chosen only by an exact test of
                       the payload (== constant, is_nan): a range test (|x| < eps) collapses distinct values.
  S6 ENDIAN            writer and reader use the same byte order for every integer of a tag.
+ S8 CONSUME-ON-SUCCESS every success path of a reader arm performs each cursor advance of that arm (a value decoded but not
+                      consumed shifts every later value).
  S7 SOLE-CODEC        partition_spiller / subquery::spill serialise rows only through RowSerde (WHO).
 Value equality itself is NOT decided.
 """
 from model import CheckError, operand_place, place_fields
-from paths import const_value, switch_cond_origin
+from paths import const_value, switch_cond_origin, success_escapes, describe_path
 import codec
 import common
 
@@ -109,6 +111,25 @@ def run(ctx):
             if we or re_:
                 ctx.ob("S6.ENDIAN", "%s/%s" % (short, v), we == re_ or not we or not re_, "byte order %s" % sorted(we | re_) if we == re_ else
                        "writer uses %s, reader uses %s" % (sorted(we), sorted(re_)), c.loc())
+    # ---------- S8 every success path of a reader arm performs each of the arm's cursor advances ----------
+    n8 = 0
+    for val, (ev, adv, tgt) in sorted(rtab.items()):
+        dom = set(codec.dominated(r, tgt))
+        stores = sorted({bb for bb in dom for s in r.blocks[bb]["s"] if s[0] == "=" and is_off(r, tuple(s[1])) and not codec.in_loop(r, bb)})
+        if not stores:
+            continue
+        n8 += 1
+        bad = None
+        for sb in stores:
+            esc = success_escapes(r, [tgt], [sb])
+            if esc:
+                bad = (sb, esc[0])
+                break
+        ctx.ob("S8.CONSUME-ON-SUCCESS", "0x%02x" % val, bad is None, "%d cursor advance(s), each on every success path of the arm" % len(stores) if bad is None else
+               "the reader arm can return Ok without performing the cursor advance at L%s (path %s): the bytes it decoded are not consumed and "
+               "the next value is read from the wrong offset" % (r.blocks[bad[0]].get("l"), describe_path(r, bad[1])),
+               "%s:%s" % (r.file, r.blocks[bad[0] if bad else tgt].get("l")))
+    ctx.floor("S8.arms_with_advances", n8, 14)
     # reader arms for tags the writer never emits are harmless; count them
     ctx.stat("reader_only_tags", sorted("0x%02x" % v for v in rtab if v not in {val for _, val in wtab}))
 
